@@ -89,7 +89,7 @@ func (u *unit) pos(p token.Pos) string {
 }
 
 // sourceImports lists the imports resolved by the source importer.
-var sourceImports = map[string]bool{"math": true, "math/bits": true}
+var sourceImports = map[string]bool{"math": true, "math/bits": true, "unicode": true, "strings": true}
 
 // fallbackImporter resolves imports from source and replaces every import it
 // cannot resolve by an empty package, so that type checking never aborts.
@@ -517,7 +517,7 @@ func (u *Unit) Render(rel string) string {
 	fmt.Fprintf(&sb, "(* GENERATED by srcmodel from %s -- do not edit *)\n", rel)
 	sb.WriteString("From Coq Require Import List ZArith Bool.\n")
 	sb.WriteString("From Coq Require String.\n")
-	sb.WriteString("From PB Require Import Base.GoInt.\n")
+	sb.WriteString("From PB Require Import Base.GoInt CodeGen.StrsGoBase.\n")
 	sb.WriteString("Import ListNotations.\n")
 	// String literals (GoErr, unsupported) need the string notation; String
 	// itself must not be imported (its length and ++ clash with List's).
